@@ -367,7 +367,7 @@ def run_chunk(job):
             if shipped:
                 cfg = gen_config(prop, sub, run_id, wl["n"], (1000, shape[1], 16))
                 cfg["batch"] = None
-                cfg["max_steps"] = 400000
+                cfg["max_steps"] = cfg["chaos_steps"] + 600000  # the cap is only meaningful in the calm phase
                 d["shipped_batch_runs"] += 1
             else:
                 cfg = gen_config(prop, sub, run_id, wl["n"], shape)
